@@ -47,36 +47,8 @@ pub proof fn law_any_accepts_unescaped(db: &DbIndex, s: LuaType, c: LuaType, lvl
 {
 }
 
-/// ... but NOT for the eight escaping variants: at the depth limit the `?` on next_level() comes before the `Unknown | Any => Ok` arm
-pub proof fn any_rejected_at_depth_limit(db: &DbIndex, s: LuaType, c: LuaType)
-    requires sp_any_or_unknown(s), !sp_like_any(c), sp_escape(db, c) is Some,
-    ensures head_err(db, s, c, 100) /*@C16.any-accepts-everything.fails-at-depth-limit*/,
-{
-}
-
-/// a chain of escapes longer than the remaining depth turns `any` into a rejected source (e.g. 101 chained aliases, or a cyclic alias)
-pub open spec fn esc_chain(db: &DbIndex, c: LuaType, n: int) -> bool
-    decreases n
-{
-    if n <= 0 { true }
-    else { !sp_like_any(c) && (sp_escape(db, c) matches Some(o) && esc_chain(db, o, n - 1)) }
-}
-pub proof fn any_rejected_by_long_escape_chain(db: &DbIndex, s: LuaType, c: LuaType, lvl: int)
-    requires sp_any_or_unknown(s), 0 <= lvl <= 100, esc_chain(db, c, 101 - lvl),
-    ensures head_err(db, s, c, lvl) /*@C16.any-accepts-everything.fails-for-long-escape-chains*/,
-    decreases 101 - lvl
-{
-    if lvl < 100 {
-        any_rejected_by_long_escape_chain(db, s, sp_escape(db, c)->Some_0, lvl + 1);
-    }
-}
-
-/// an intersection without components is rejected from every source that is not itself an intersection, `any` included
-pub proof fn any_rejected_by_empty_intersection(db: &DbIndex, s: LuaType, c: LuaType, lvl: int)
-    requires sp_any_or_unknown(s), 0 <= lvl <= 100, c is Intersection, c->Intersection_0.types@.len() == 0,
-    ensures head_err(db, s, c, lvl) /*@C16.any-accepts-everything.fails-for-empty-intersection*/,
-{
-}
+// (where the law does NOT hold today - escape chains longer than the remaining depth, an intersection without components - is no longer a
+//  lemma: the clause C16.any-accepts-everything.at-every-depth on the dispatch function states the law itself and fails on such a tree)
 
 // ---- (b) reflexivity ---------------------------------------------------------------------------------------------------
 /// the types whose reflexivity the head guard fast_eq_check decides (at every depth, before anything can fail)
@@ -88,10 +60,11 @@ pub proof fn law_reflexive_head_guard(db: &DbIndex, t: LuaType, lvl: int)
     ensures fast_eq_lb(t, t), head_ok(db, t, t, lvl) /*@C16.reflexive*/,
 {
 }
-/// fast_eq_check(T, T) is false for every other variant (31 of 46): their reflexivity is up to the branch checkers
+/// fast_eq_check(T, T) is false for every other variant: their reflexivity is up to the branch checkers (the last four only if the
+/// head guard is extended to them: today it is not)
 pub proof fn fast_eq_reflexive_only_for(t: LuaType)
     requires fast_eq_ub(t, t),
-    ensures fast_unit(t) || t is Ref || t is Generic /*@C16.reflexive.head-guard-variants*/,
+    ensures fast_unit(t) || t is Ref || t is Generic || t is SelfInfer || t is StrTplRef || t is Conditional || t is Mapped /*@C16.reflexive.head-guard-variants*/,
 {
 }
 /// decided by the dispatch arms: never, TypeGuard (below the depth limit), unknown/any (like-any), unconstrained TplRef (like-any)
@@ -134,18 +107,10 @@ pub proof fn law_reflexive_simple(db: &DbIndex, t: LuaType, lvl: int)
     ensures head_ok(db, t, t, lvl) /*@C16.reflexive.simple-variants*/,
 {
 }
-/// FINDING (decided negatively): a string-template type is not accepted where itself is expected
-/// (check_simple_type_compact: `StrTplRef(_) => if compact_type.is_string() {..}`, and is_string() does not list StrTplRef)
-pub proof fn not_reflexive_for_str_tpl_ref(db: &DbIndex, t: LuaType, lvl: int)
-    requires t is StrTplRef, 0 <= lvl <= 100,
-    ensures head_err(db, t, t, lvl) /*@C16.reflexive.fails-for-strtplref*/,
-{
-}
-/// FINDING (decided negatively): the dispatch `match source` has no arm for SelfInfer / Conditional / Mapped; they fall to `_ => Err`
-pub proof fn not_reflexive_for_unlisted_sources(db: &DbIndex, t: LuaType, lvl: int)
-    requires t is SelfInfer || t is Conditional || t is Mapped, 0 <= lvl <= 100,
-    ensures head_err(db, t, t, lvl) /*@C16.reflexive.fails-for-selfinfer-conditional-mapped*/,
-{
+/// every type for which the unit can state `check(T, T) is Ok` at every guard depth: the clause C16.reflexive.every-variant
+/// (on c16_every::check_general_type_compact) claims exactly these; SelfInfer / StrTplRef / Conditional / Mapped are NOT accepted today
+pub open spec fn refl_claim(db: &DbIndex, t: LuaType) -> bool {
+    refl_by_head_guard(t) || refl_simple(t) || t is Never || fast_eq_extra(t, t) || (t matches LuaType::Def(id) && is_class_decl(db, id))
 }
 
 // ---- (c) union members -------------------------------------------------------------------------------------------------
